@@ -580,6 +580,7 @@ func run(c *Ctx) {
 	directEquivalences(c, rng.Fork())
 	explicitValues(c)
 	quantizerRange(c)
+	bitSetOptions(c)
 	animationOptions(c, rng.Fork())
 	c.Sample(map[string]any{"rows": len(rows), "example_case": "eff 0 0 0 16 16 1 " + optsLine(&bases[2])})
 }
@@ -865,6 +866,105 @@ func explicitValues(c *Ctx) {
 					key += "-with-metadata"
 				}
 				c.Violate(key, "two documented-distinct explicit values give byte-identical files ("+p.why+")", rep)
+			}
+		}
+	}
+}
+
+// segmentImage is a fixed 160x128 (10x8 macroblocks) picture whose macroblocks belong to four
+// texture classes in a pseudo-random arrangement (flat gradients, fine noise, stripes, soft
+// noise): the segment map is noisy, so the 3x3 majority filter (Preprocessing bit 0) changes it,
+// and the gradients make the dithering (bit 1) visible at every quality.
+func segmentImage() *image.NRGBA {
+	const w, h = 160, 128
+	im := image.NewNRGBA(image.Rect(0, 0, w, h))
+	s := uint32(88172645)
+	next := func() uint32 { s ^= s << 13; s ^= s >> 17; s ^= s << 5; return s }
+	var cls [8][10]int
+	for by := 0; by < 8; by++ {
+		for bx := 0; bx < 10; bx++ {
+			cls[by][bx] = int(next() % 4)
+		}
+	}
+	cl := func(v int) uint8 {
+		if v < 0 {
+			return 0
+		}
+		if v > 255 {
+			return 255
+		}
+		return uint8(v)
+	}
+	for y := 0; y < h; y++ {
+		for x := 0; x < w; x++ {
+			i := y*im.Stride + x*4
+			var r, g, b int
+			switch cls[y/16][x/16] {
+			case 0:
+				r, g, b = x, y*2, (x+y)/2
+			case 1:
+				n := int(next() >> 24)
+				r, g, b = n, 255-n, n/2+60
+			case 2:
+				r, g, b = (x%4)*60, (y%8)*30, 128
+			default:
+				n := int(next()>>27) - 16
+				r, g, b = x+n, 200-y+n, 90+n
+			}
+			im.Pix[i], im.Pix[i+1], im.Pix[i+2], im.Pix[i+3] = cl(r), cl(g), cl(b), 255
+		}
+	}
+	return im
+}
+
+// bitSetOptions: Preprocessing is the one option documented as a bit set (bit 0 = segment
+// smoothing, bit 1 = dithering; 3 = both).  Every bit must act whatever the other bit is: for
+// each bit b and each value v of the other bits, Encode(v | b) must differ from Encode(v) on an
+// image where the bit is observable (several segments with a noisy segment map, gradients).
+func bitSetOptions(c *Ctx) {
+	im := segmentImage()
+	bases := []struct {
+		name string
+		f    func(o *webp.EncoderOptions)
+	}{
+		{"q20", func(o *webp.EncoderOptions) { o.Quality = 20 }},
+		{"q75-segments3", func(o *webp.EncoderOptions) { o.Quality = 75; o.Segments = 3 }},
+	}
+	if c.Thorough() {
+		bases = append(bases, struct {
+			name string
+			f    func(o *webp.EncoderOptions)
+		}{"q50-m2", func(o *webp.EncoderOptions) { o.Quality = 50; o.Method = 2 }})
+	}
+	for _, bs := range bases {
+		out := map[int][]byte{}
+		for v := 0; v <= 3; v++ {
+			o := *webp.DefaultOptions()
+			bs.f(&o)
+			o.Preprocessing = v
+			runtime.GC()
+			runtime.GC()
+			r := encode(im, &o)
+			c.D.Evaluations++
+			if r.panicked != "" || r.err != nil {
+				c.Violate("rejected-valid:Preprocessing", fmt.Sprintf("Encode failed for Preprocessing %d: %v %s", v, r.err, r.panicked), map[string]any{"options": optsLine(&o)})
+				continue
+			}
+			out[v] = r.out
+		}
+		for _, bit := range []int{1, 2} {
+			for v := 0; v <= 3; v++ {
+				if v&bit != 0 || out[v] == nil || out[v|bit] == nil {
+					continue
+				}
+				c.Count("bit_set_pairs")
+				c.Nontrivial(fmt.Sprintf("bits|%s|%d|%d", bs.name, bit, v))
+				if bytes.Equal(out[v], out[v|bit]) {
+					c.Violate(fmt.Sprintf("bit-ignored:Preprocessing&%d", bit),
+						fmt.Sprintf("Preprocessing %d and %d give byte-identical files: bit %d (%s) is ignored when the other bits are %d", v|bit, v, bit,
+							map[int]string{1: "segment smoothing", 2: "dithering"}[bit], v),
+						map[string]any{"image": "segmentImage() 160x128", "base": bs.name, "preprocessing_a": v | bit, "preprocessing_b": v})
+				}
 			}
 		}
 	}
